@@ -64,7 +64,11 @@ impl MtuSys {
         )
     }
     fn target(&self) -> u16 {
-        self.cfg.link.min(self.cfg.upper_bound).min(self.cfg.peer).max(INITIAL_MTU.min(self.cfg.peer))
+        self.cfg
+            .link
+            .min(self.cfg.upper_bound)
+            .min(self.cfg.peer)
+            .max(INITIAL_MTU.min(self.cfg.peer))
     }
 
     /// Invariants on current_mtu after any operation; `expected` is what the model allows
@@ -74,7 +78,9 @@ impl MtuSys {
         if got < floor {
             return Some((
                 "mtud:mtu-below-minimum".into(),
-                format!("{ctx}: current_mtu {got} < min(min_mtu, peer max_udp_payload_size) = {floor}"),
+                format!(
+                    "{ctx}: current_mtu {got} < min(min_mtu, peer max_udp_payload_size) = {floor}"
+                ),
             ));
         }
         if got > self.cfg.link {
@@ -86,7 +92,10 @@ impl MtuSys {
         if got > self.cfg.peer {
             return Some((
                 "mtud:mtu-exceeds-peer-limit".into(),
-                format!("{ctx}: current_mtu {got} > peer max_udp_payload_size {}", self.cfg.peer),
+                format!(
+                    "{ctx}: current_mtu {got} > peer max_udp_payload_size {}",
+                    self.cfg.peer
+                ),
             ));
         }
         if got != expected {
@@ -95,14 +104,23 @@ impl MtuSys {
             } else {
                 "mtud:mtu-changed-unexpectedly"
             };
-            return Some((sig.into(), format!("{ctx}: current_mtu went {} -> {got}, the model allows {expected}", self.current)));
+            return Some((
+                sig.into(),
+                format!(
+                    "{ctx}: current_mtu went {} -> {got}, the model allows {expected}",
+                    self.current
+                ),
+            ));
         }
         self.current = got;
         let real_probe = self.real.in_flight_mtu_probe();
         if real_probe != self.probe.map(|p| p.0) {
             return Some((
                 "mtud:in-flight-probe-mismatch".into(),
-                format!("{ctx}: in_flight_mtu_probe() = {real_probe:?}, environment has {:?}", self.probe),
+                format!(
+                    "{ctx}: in_flight_mtu_probe() = {real_probe:?}, environment has {:?}",
+                    self.probe
+                ),
             ));
         }
         None
@@ -170,16 +188,42 @@ impl Sys for MtuSys {
                     Some(size) => {
                         self.next_pn += 1;
                         if self.probe.is_some() {
-                            return StepOut::bad(real, self.model_str(), "mtud:second-probe-in-flight", "poll_transmit produced a probe while another one is in flight");
+                            return StepOut::bad(
+                                real,
+                                self.model_str(),
+                                "mtud:second-probe-in-flight",
+                                "poll_transmit produced a probe while another one is in flight",
+                            );
                         }
                         if size <= self.current {
-                            return StepOut::bad(real, self.model_str(), "mtud:probe-not-above-current-mtu", format!("probe of {size} bytes with current_mtu {}", self.current));
+                            return StepOut::bad(
+                                real,
+                                self.model_str(),
+                                "mtud:probe-not-above-current-mtu",
+                                format!("probe of {size} bytes with current_mtu {}", self.current),
+                            );
                         }
                         if size > self.cfg.upper_bound {
-                            return StepOut::bad(real, self.model_str(), "mtud:probe-exceeds-upper-bound", format!("probe of {size} bytes, configured upper bound {}", self.cfg.upper_bound));
+                            return StepOut::bad(
+                                real,
+                                self.model_str(),
+                                "mtud:probe-exceeds-upper-bound",
+                                format!(
+                                    "probe of {size} bytes, configured upper bound {}",
+                                    self.cfg.upper_bound
+                                ),
+                            );
                         }
                         if size > self.cfg.peer {
-                            return StepOut::bad(real, self.model_str(), "mtud:probe-exceeds-peer-limit", format!("probe of {size} bytes, peer max_udp_payload_size {}", self.cfg.peer));
+                            return StepOut::bad(
+                                real,
+                                self.model_str(),
+                                "mtud:probe-exceeds-peer-limit",
+                                format!(
+                                    "probe of {size} bytes, peer max_udp_payload_size {}",
+                                    self.cfg.peer
+                                ),
+                            );
                         }
                         self.probe = Some((pn, size));
                     }
@@ -198,7 +242,12 @@ impl Sys for MtuSys {
                 let was_probe = self.real.on_acked(pn, size);
                 let real = format!("on_acked({pn},{size}) = {was_probe}");
                 if !was_probe {
-                    return StepOut::bad(real, self.model_str(), "mtud:acked-probe-not-recognised", "on_acked of the in-flight probe returned false");
+                    return StepOut::bad(
+                        real,
+                        self.model_str(),
+                        "mtud:acked-probe-not-recognised",
+                        "on_acked of the in-flight probe returned false",
+                    );
                 }
                 match self.check_mtu(size, "probe acked") {
                     Some((s, w)) => StepOut::bad(real, self.model_str(), s, w),
@@ -226,7 +275,12 @@ impl Sys for MtuSys {
                 let was_probe = self.real.on_acked(pn, len);
                 let real = format!("on_acked({pn},{len}) = {was_probe}");
                 if was_probe {
-                    return StepOut::bad(real, self.model_str(), "mtud:non-probe-taken-for-probe", "on_acked of an ordinary packet returned true");
+                    return StepOut::bad(
+                        real,
+                        self.model_str(),
+                        "mtud:non-probe-taken-for-probe",
+                        "on_acked of an ordinary packet returned true",
+                    );
                 }
                 let cur = self.current;
                 match self.check_mtu(cur, "non-probe acked") {
@@ -291,7 +345,10 @@ impl Sys for MtuSys {
             if steps > 400 {
                 return Some((
                     "mtud:probing-does-not-terminate".into(),
-                    format!("faithful link {}: still probing after {probes} probes at a fixed time", cfg.link),
+                    format!(
+                        "faithful link {}: still probing after {probes} probes at a fixed time",
+                        cfg.link
+                    ),
                 ));
             }
             if s.probe.is_none() {
@@ -305,7 +362,11 @@ impl Sys for MtuSys {
                 probes += 1;
             }
             let (_, size) = s.probe.unwrap();
-            let op = if size <= cfg.link { MOp::ProbeAcked } else { MOp::ProbeLost };
+            let op = if size <= cfg.link {
+                MOp::ProbeAcked
+            } else {
+                MOp::ProbeLost
+            };
             if let Some(v) = s.apply(&op).viol {
                 return Some(v);
             }
@@ -314,7 +375,10 @@ impl Sys for MtuSys {
         let target = s.target();
         let mc = minimum_change();
         if fin > cfg.link {
-            return Some(("mtud:mtu-exceeds-link".into(), format!("final current_mtu {fin} > link {}", cfg.link)));
+            return Some((
+                "mtud:mtu-exceeds-link".into(),
+                format!("final current_mtu {fin} > link {}", cfg.link),
+            ));
         }
         // The binary search stops once the next step would move by less than `minimum_change`
         // from the last probed size; the last failed probe may sit up to `minimum_change` above
@@ -345,7 +409,11 @@ impl Sys for MtuSys {
             MOp::ProbeAcked => json!(["probe_acked"]),
             MOp::ProbeLost => json!(["probe_lost"]),
             MOp::Acked(big) => json!(["on_acked", if big { "current_mtu" } else { "1200" }]),
-            MOp::Lost(big, gap) => json!(["on_non_probe_lost", if big { "current_mtu" } else { "1200" }, if gap { "gap" } else { "contiguous" }]),
+            MOp::Lost(big, gap) => json!([
+                "on_non_probe_lost",
+                if big { "current_mtu" } else { "1200" },
+                if gap { "gap" } else { "contiguous" }
+            ]),
             MOp::BlackHole => json!(["black_hole_detected"]),
             MOp::Time(long) => json!(["time", if long { 600 } else { 1 }]),
         }
@@ -379,7 +447,11 @@ pub fn faithful_gap(cfg: &MCfg) -> (u16, u16, u32) {
             probes += 1;
         }
         let (_, size) = s.probe.unwrap();
-        let op = if size <= cfg.link { MOp::ProbeAcked } else { MOp::ProbeLost };
+        let op = if size <= cfg.link {
+            MOp::ProbeAcked
+        } else {
+            MOp::ProbeLost
+        };
         let _ = s.apply(&op);
     }
     (s.real.current_mtu(), s.target(), probes)
